@@ -113,6 +113,8 @@ func findLoops(fn *ssa.Function) *loopInfo {
 func (fr *frame) loopModSet(lp *loop) map[string]int {
 	ms := map[string]int{}
 	e := fr.ft.e
+	e.freshScope = lp.body
+	defer func() { e.freshScope = nil }()
 	for b := range lp.body {
 		for _, ins := range b.Instrs {
 			e.instrWritesLevel(ins, ms)
@@ -137,6 +139,17 @@ func (fr *frame) loopModSet(lp *loop) map[string]int {
 						}
 					}
 				}
+			}
+		}
+	}
+	// ghost assignments attached to call sites inside the loop
+	if fr.fc != nil {
+		for _, a := range fr.fc.Asserts {
+			if a.Kind != "assign" || a.E == nil {
+				continue
+			}
+			if t := fr.assertTarget(a); t != nil && lp.body[t.Block()] {
+				ms[e.ghostHeap(a.Label)] = modAny
 			}
 		}
 	}
@@ -300,6 +313,39 @@ func (fr *frame) checkLoopStep(lp *loop, from *ssa.BasicBlock, cond string, st *
 	}
 	for phi, v := range saved {
 		fr.vals[phi] = v
+	}
+	// vacuity: the end of the loop body is reachable under the assumed
+	// invariants (a contradictory invariant would prove every step); one
+	// cover per loop over all its back edges, emitted by loopCoverObligations
+	if fr.depth == 0 {
+		if fr.loopCovers == nil {
+			fr.loopCovers = map[*loop]*loopCover{}
+		}
+		lc := fr.loopCovers[lp]
+		if lc == nil {
+			lc = &loopCover{}
+			fr.loopCovers[lp] = lc
+			fr.loopCoverOrder = append(fr.loopCoverOrder, lp)
+		}
+		lc.conds = append(lc.conds, cond)
+		for _, inv := range invs {
+			for _, p := range inv.Props {
+				lc.props = appendUniq(lc.props, p)
+			}
+		}
+	}
+}
+
+type loopCover struct {
+	conds []string
+	props []string
+}
+
+func (fr *frame) loopCoverObligations() {
+	for _, lp := range fr.loopCoverOrder {
+		lc := fr.loopCovers[lp]
+		o := fr.oblig("cover/loop", lc.props, lp.pos, fmt.Sprintf("loop%d: end of body reachable", lp.ordinal), or(lc.conds...), "true")
+		o.Cover = true
 	}
 }
 
